@@ -1,7 +1,9 @@
 import BeyondVerif.Model.Node
 import BeyondVerif.Model.Registry
+import BeyondVerif.Model.RegistryStr
 import BeyondVerif.Generated.RegSites
 import BeyondVerif.Drv.Util
+import Std.Data.HashSet
 namespace BeyondVerif.Drv.C20
 open BeyondVerif BeyondVerif.Drv
 
@@ -143,6 +145,143 @@ def regOp (args : List String) : String :=
     | _, _, _, _, _ => "bad-op"
   | _ => "bad-op"
 
+def cpList? (s : String) : Option (List Nat) :=
+  if s = "-" then some [] else (s.splitOn ".").mapM (·.toNat?)
+
+/-- `sreg <n> <names> <classes> <mro> <root> <strs> <op> …` : as `reg`, but the method table is keyed by the attribute-name
+STRING `f"{a}_to_{b}"` (`Model/RegistryStr.lean`); `strs` gives, for the name identifiers 0, 1, …, the code points of the
+name (`;`-separated, code points joined by `.`) -/
+def sregOp (args : List String) : String :=
+  match args with
+  | n :: names :: classes :: mro :: root :: strs :: ops =>
+    match n.toNat?, natList? names, natList? classes, parseMro? mro, root.toNat?, (strs.splitOn ";").mapM cpList? with
+    | some n, some names, some classes, some mro, some root, some strs =>
+      if names.length ≠ n ∨ classes.length ≠ n ∨ names.any (fun k => k ≥ strs.length) then "bad-op" else
+      let w : Reg.World := {
+        nm := fun i => names.getD i i
+        cls := fun i => classes.getD i 0
+        mro := fun c => match mro.lookup c with | some l => l | none => [c] }
+      let str := fun k => strs.getD k []
+      match ops.mapM (parseRegOp? w root) with
+      | none => "bad-op"
+      | some opss =>
+        let fuel := n + 2
+        match RegS.applyOpsS w str fuel {} opss.flatten with
+        | none => "fuel"
+        | some st =>
+          let goals := distinctSorted names
+          let conv := (List.range n).flatMap (fun s => goals.map (fun t => showConv (RegS.convertS w str (n + 2) st s t)))
+          dumpGraph n st.g ++ " C " ++ joinWith ";" conv
+    | _, _, _, _, _, _ => "bad-op"
+  | _ => "bad-op"
+
+/-- `goodname <code points>` : the decidable hypothesis of `linkKey_injective` on one name -/
+def goodnameOp (args : List String) : String :=
+  match args with
+  | [s] => match cpList? s with
+    | some l => if RegS.goodName l then "1" else "0"
+    | none => "bad-op"
+  | _ => "bad-op"
+
+/-- `linkkey <a> <b>` : code points of `f"{a}_to_{b}"` -/
+def linkkeyOp (args : List String) : String :=
+  match args with
+  | [a, b] => match cpList? a, cpList? b with
+    | some a, some b => joinWith "." ((LinkKey.linkKey a b).map toString)
+    | _, _ => "bad-op"
+  | _ => "bad-op"
+
+/-! ### exhaustive exploration of the reachable states on `n` nodes (any sequence of links, repeated links included) -/
+
+/-- hop distances from `s` over the neighbour lists of `g` (breadth first, at most `n` rounds) -/
+def bfsDist (n : Nat) (g : Node.Graph) (s : Nat) : Array (Option Nat) :=
+  let init : Array (Option Nat) := (Array.replicate n none).set! s (some 0)
+  let step := fun (st : Array (Option Nat) × List Nat) (_ : Nat) =>
+    st.2.foldl (fun (acc : Array (Option Nat) × List Nat) u =>
+      match acc.1.getD u none with
+      | none => acc
+      | some du =>
+        (Node.get g u).nbrs.foldl (fun (acc : Array (Option Nat) × List Nat) v =>
+          if v < n then
+            match acc.1.getD v none with
+            | none => (acc.1.set! v (some (du + 1)), v :: acc.2)
+            | some _ => acc
+          else acc) acc) (st.1, [])
+  ((List.range n).foldl step (init, [s])).1
+
+structure CStats where
+  states : Nat := 1
+  nonshortStates : Nat := 0
+  nonshortPairs : Nat := 0
+  maxExcess : Nat := 0
+  ratioNum : Nat := 1
+  ratioDen : Nat := 1
+  notSimple : Nat := 0        -- returned paths with a repeated node, K / L results on connected pairs, U on connected pairs
+  stepsViolated : Nat := 0    -- returned paths longer than the steps field of the source's entry
+
+/-- statistics of one state: pairs routed along a non-shortest path, worst detour -/
+def analyse (n : Nat) (g : Node.Graph) (st : CStats) : CStats :=
+  let res := (List.range n).foldl (fun (acc : Nat × Nat × Nat × Nat × Nat × Nat) s =>
+    let d := bfsDist n g s
+    (List.range n).foldl (fun (acc : Nat × Nat × Nat × Nat × Nat × Nat) t =>
+      if t = s then acc else
+      match d.getD t none with
+      | none => (match Node.path (n + 2) g s t with | .unknown => acc | _ => (acc.1, acc.2.1, acc.2.2.1, acc.2.2.2.1, acc.2.2.2.2.1 + 1, acc.2.2.2.2.2))
+      | some dt =>
+        match Node.path (n + 2) g s t with
+        | .ok p =>
+          let hops := p.length - 1
+          let bad := if p.eraseDups.length = p.length then 0 else 1
+          let sv := match Node.lookupRoute (Node.get g s).routes t with
+            | some r => if hops ≤ r.steps then 0 else 1
+            | none => 1
+          let acc := (acc.1, acc.2.1, acc.2.2.1, acc.2.2.2.1, acc.2.2.2.2.1 + bad, acc.2.2.2.2.2 + sv)
+          if hops = dt then acc
+          else
+            let ex := hops - dt
+            let (rn, rd) := if hops * acc.2.2.2.1 > acc.2.2.1 * dt then (hops, dt) else (acc.2.2.1, acc.2.2.2.1)
+            (acc.1 + 1, max acc.2.1 ex, rn, rd, acc.2.2.2.2.1, acc.2.2.2.2.2)
+        | _ => (acc.1, acc.2.1, acc.2.2.1, acc.2.2.2.1, acc.2.2.2.2.1 + 1, acc.2.2.2.2.2)) acc)
+    (0, st.maxExcess, st.ratioNum, st.ratioDen, 0, 0)
+  { st with nonshortStates := st.nonshortStates + (if res.1 > 0 then 1 else 0), nonshortPairs := st.nonshortPairs + res.1,
+            maxExcess := res.2.1, ratioNum := res.2.2.1, ratioDen := res.2.2.2.1,
+            notSimple := st.notSimple + res.2.2.2.2.1, stepsViolated := st.stepsViolated + res.2.2.2.2.2 }
+
+/-- `closure <n> <limit> <rounds>` : every state reachable from the empty graph on nodes 0..n-1 by any sequence of links `a + b`
+(`a ≠ b`; a state = neighbour lists in order + tables), explored breadth first for at most `rounds` rounds (`complete=1` when no new state appeared in the last one; `limit`
+when more than `limit` states were seen): number of states, of states / pairs routed along a non-shortest chain, worst detour (hops - distance),
+worst stretch (hops / distance), number of rounds -/
+def closureOp (args : List String) : String :=
+  match args with
+  | [n, limit, rounds] =>
+    match n.toNat?, limit.toNat?, rounds.toNat? with
+    | some n, some limit, some rounds =>
+      let pairs := (List.range n).flatMap (fun a => ((List.range n).filter (· ≠ a)).map (fun b => (a, b)))
+      let fuel := n + 2
+      let g0 : Node.Graph := []
+      let seen0 : Std.HashSet String := (Std.HashSet.emptyWithCapacity 1024).insert (dumpGraph n g0)
+      let round := fun (st : List Node.Graph × Std.HashSet String × CStats × Nat × Bool) (_ : Nat) =>
+        if st.1.isEmpty || st.2.2.2.2 then st else
+        let r := st.1.foldl (fun (acc : List Node.Graph × Std.HashSet String × CStats × Bool) g =>
+          if acc.2.2.2 then acc else
+          pairs.foldl (fun (acc : List Node.Graph × Std.HashSet String × CStats × Bool) e =>
+            match Node.link fuel g e.1 e.2 with
+            | none => (acc.1, acc.2.1, acc.2.2.1, true)
+            | some g' =>
+              let k := dumpGraph n g'
+              if acc.2.1.contains k then acc
+              else
+                let stats := analyse n g' { acc.2.2.1 with states := acc.2.2.1.states + 1 }
+                (g' :: acc.1, acc.2.1.insert k, stats, acc.2.2.2 || stats.states > limit)) acc)
+          ([], st.2.1, st.2.2.1, false)
+        (r.1.reverse, r.2.1, r.2.2.1, st.2.2.2.1 + 1, r.2.2.2)
+      let fin := (List.range rounds).foldl round ([g0], seen0, {}, 0, false)
+      let cs := fin.2.2.1
+      if fin.2.2.2.2 then s!"limit states={cs.states}"
+      else s!"states={cs.states} nonshort_states={cs.nonshortStates} nonshort_pairs={cs.nonshortPairs} maxexcess={cs.maxExcess} maxratio={cs.ratioNum}/{cs.ratioDen} notsimple={cs.notSimple} stepsviolated={cs.stepsViolated} rounds={fin.2.2.2.1} complete={if fin.1.isEmpty then 1 else 0}"
+    | _, _, _ => "bad-op"
+  | _ => "bad-op"
+
 /-- `sites` : labels of the regenerated registration sites, in the order of their indices -/
 def sitesOp : String := joinWith ";" (BeyondVerif.Generated.regSites.map (·.1))
 
@@ -150,6 +289,10 @@ def handle : List String → Option String
   | "node" :: args => some (nodeOp args)
   | "nnode" :: args => some (nnodeOp args)
   | "reg" :: args => some (regOp args)
+  | "sreg" :: args => some (sregOp args)
+  | "closure" :: args => some (closureOp args)
+  | "goodname" :: args => some (goodnameOp args)
+  | "linkkey" :: args => some (linkkeyOp args)
   | "sites" :: _ => some sitesOp
   | _ => none
 
